@@ -136,8 +136,13 @@ def derive_weight(spec, graph, asst):
     return bad, w
 
 
-def check_spec(spec, meta, tier):
+def check_spec(spec, meta, tier, index=0):
     import torch
+    import random as _random
+    rule_order = list(range(len(spec['rules'])))
+    _random.Random(f'C04order:{index}').shuffle(rule_order)
+    if index % 2 == 0:
+        rule_order = None
     fggs = env.setup()
     IND = env.mod('fggs.indices')
     VIT = env.mod('fggs.viterbi')
@@ -160,7 +165,8 @@ def check_spec(spec, meta, tier):
             n = len(idx - set(output))
             obs['einsum_sumout_' + ('0' if n == 0 else '1' if n == 1 else 'ge2')] += 1
         h.spy(VIT, 'log_viterbi_einsum_forward', on_call=on_call, key='log_viterbi_einsum_forward')
-        fgg, info = G.build_fgg(fggs, spec, 'viterbi', torch.float64)
+        late = index % 3 == 1        # start symbol set through the setter after another nonterminal was registered first
+        fgg, info = G.build_fgg(fggs, spec, 'viterbi', torch.float64, start_via_setter=late, rule_order=rule_order)
         sr = fggs.ViterbiSemiring(dtype=torch.float64)
         out = C.call(lambda: fggs.sum_product(fgg, semiring=sr, method='fixed-point', tol=tol, kmax=5000).to_dense())
         spv = out['value'] if out['ok'] else None
@@ -174,7 +180,7 @@ def check_spec(spec, meta, tier):
             best = exp[asst].item() if shape else exp.item()
             if best == -math.inf:
                 continue
-            fgg, info = G.build_fgg(fggs, spec, 'viterbi', torch.float64)
+            fgg, info = G.build_fgg(fggs, spec, 'viterbi', torch.float64, start_via_setter=late, rule_order=rule_order)
             sys.setrecursionlimit(3000)
             try:
                 out = C.call(fggs.viterbi, fgg, tuple(asst), semiring=sr, tol=tol, kmax=5000)
@@ -230,8 +236,8 @@ def check_spec(spec, meta, tier):
 def run_case(tier, seed, index, spec=None, meta=None):
     if spec is None:
         spec, meta = gen(tier, seed, index)
-    res = check_spec(spec, meta, tier)
-    feats = sorted(G.features_of(spec)) + [f for f in meta['forced'] if f in ('all-ext-rule', 'stride0-nonterminals', 'zero-weight-cycle-in-factor')]
+    res = check_spec(spec, meta, tier, index)
+    feats = sorted(G.features_of(spec)) + [f for f in meta['forced'] if f in ('all-ext-rule', 'stride0-nonterminals', 'zero-weight-cycle-in-factor', 'scc-member-with-private-dependency')] + (['start-set-late'] if index % 3 == 1 else [])
     res.update(cls=meta['cls'], features=feats, key=G.spec_key(spec), sample=dict(spec=G.describe(spec), meta=meta))
     for v in res['violations']:
         v['spec'] = spec
